@@ -596,7 +596,7 @@ pub fn process_line(v: &Value, want_prop: &str, rep: &mut Report) {
     }
     // C08 / C09 / C17 judge by their own predicates: C17 on the well-conditioned embedding only, C08 / C09 also
     // under a common offset of 2^30 (conditioning 2e9)
-    let embs: &[&str] = if want_prop == "C20" { &["E0", "E5"] } else if want_prop == "C16" { &["E0", "E10"] } else if want_prop == "C08" || want_prop == "C09" { &["E0", "E3"] } else { &["E0"] };
+    let embs: &[&str] = if want_prop == "C20" { &["E0", "E5", "E1"] } else if want_prop == "C16" { &["E0", "E10"] } else if want_prop == "C08" || want_prop == "C09" { &["E0", "E3"] } else { &["E0"] };
     for e in embeddings(embs) {
         let r = std::panic::catch_unwind(std::panic::AssertUnwindSafe(|| {
             let rep = &mut *rep;
